@@ -47,7 +47,7 @@ M = [
     ("C17", "illumination uses time instead of step after first readout", "pyxel/models/photon_collection/illumination.py", "    photon_array = photon_array * (detector.time_step / time_scale)", "    photon_array = photon_array * ((detector.time_step if detector.pipeline_count < 2 else detector.time) / time_scale)"),
     ("C18", "pixel_scale dropped by to_dict", "pyxel/detectors/geometry.py", '            "pixel_scale": self._pixel_scale,', '            "pixel_scale": None if self._pixel_scale == self._pixel_vert_size else self._pixel_scale,'),
     ("C19", "counter restarts", "pyxel/outputs/outputs.py", "            count += 1\n            add = \"_\" + str(count)", "            count = min(count + 1, 2)\n            add = \"_\" + str(count)"),
-    ("C19", "png writer check removed", "pyxel/outputs/utils.py", "    if full_filename.exists():\n        raise FileExistsError(f\"File {full_filename} already exists!\")\n\n    im.save(full_filename)", "    im.save(full_filename)"),
+    ("C19", "png writer check removed", "pyxel/outputs/utils.py", "    if full_filename.exists():\n        raise FileExistsError(f\"File {full_filename} already exists!\")\n\n    im = Image.fromarray(data)\n    im.save(full_filename)", "    im = Image.fromarray(data)\n    im.save(full_filename)"),
     ("C20", "centre alignment rounds up", "pyxel/util/image.py", "        return int((output_y - array_y) / 2), int((output_x - array_x) / 2)", "        return int((output_y - array_y + 1) / 2), int((output_x - array_x) / 2)"),
     ("C20", "stamp ignores size", "pyxel/util/image.py", "    return stat_result.st_mtime_ns, stat_result.st_size", "    return stat_result.st_mtime_ns // 10**12, 0"),
 ]
